@@ -89,6 +89,15 @@ def main():
             ir = cdd.function.parse.function(first(x["src"]))
             return to_code(cdd.function.emit.function(deepcopy(ir), function_name="f", function_type="static", docstring_format=x.get("style", "rest")))
 
+        def api_function_positional(x):
+            # the other signature shape of the function emitter (parameters positional instead of keyword-only),
+            # for an unbound function and for a method
+            ir = cdd.function.parse.function(first(x["src"]))
+            return "\n#----\n".join(
+                to_code(cdd.function.emit.function(deepcopy(ir), function_name="f", function_type=ft, emit_as_kwonlyargs=False, docstring_format=x.get("style", "rest"), type_annotations=ta))
+                for ft, ta in (("static", True), (None, False), ("self", True))
+            )
+
         def api_function_to_class(x):
             ir = cdd.function.parse.function(first(x["src"]))
             return to_code(cdd.class_.emit.class_(deepcopy(ir), class_name="K"))
